@@ -7,5 +7,6 @@ INVARIANT InvWrites
 INVARIANT InvPointer
 INVARIANT InvInstance
 INVARIANT InvCtxFuncs
+INVARIANT InvNames
 INVARIANT InvOk
 CHECK_DEADLOCK FALSE
